@@ -51,8 +51,17 @@ pub fn differential(text: &str, sub: &str) -> Result<&'static str, Failure> {
     }
     match &v {
         Verdict::U1(_) => Ok("skip-U1.b"),
-        Verdict::Limit("int") => Ok("skip-limit-int"),
-        Verdict::Limit("float") => Ok("skip-limit-float"),
+        // beyond a documented limit the document *may* be refused; a number no i64 / f64 holds can
+        // however not be accepted without decoding something the document does not say (C02, C11)
+        Verdict::Limit(l @ ("int" | "float")) => {
+            if a {
+                Err(Failure::new("tree", format!("a document with a number beyond the range of {} is accepted: whatever is decoded for it is not what the document says\n---\n{text}\n---", if *l == "int" { "a signed 64-bit integer" } else { "a double" }), case()))
+            } else if *l == "int" {
+                Ok("skip-limit-int")
+            } else {
+                Ok("skip-limit-float")
+            }
+        }
         Verdict::Limit(_) => Ok("skip-limit-depth"),
         Verdict::Invalid(reason) => {
             if a {
